@@ -85,6 +85,14 @@ def make_cfg(rng, index):
             break
     else:
         raise RuntimeError("no disjoint layout generated")
+    if not canonical and index % 2 == 1:
+        # uncertainties quoted in another (equivalent) unit than the velocities, also for a single RVData (RVData keeps
+        # each quantity in the unit it was given)
+        for sv in pr.surveys:
+            if sv.get("err_unit", sv["unit"]) == sv["unit"]:
+                eun = str(rng.choice([x for x in scen.VEL_UNITS if x != sv["unit"]]))
+                sv["err"] = np.asarray(sv["err"]) * float(u.Unit(sv["unit"]).to(u.Unit(eun)))
+                sv["err_unit"] = eun
     scen.build_objects(pr)
     N = [3, 2, 1, 4, 5, 8, 9][index % 7]      # 2 rows: the smallest library that needs the median rule
     lib, phys = scen.make_library(rng, pr, N, units="canonical" if canonical else None, e_max=0.9)
@@ -203,6 +211,8 @@ def cfg_case(ctx, g, rng, index):
     if pr.q >= 10:
         ctx.count("cfg:q>=10")
     ctx.count(f"cfg:K={d['K']['kind']}")
+    if any(sv.get("err_unit", sv["unit"]) != sv["unit"] for sv in pr.surveys):
+        ctx.count("cfg:rv_err in another unit than rv" + (", single RVData" if pr.q == 0 else ", several sources"))
     if abs(uf["cP"] - 1) > 1e-12:
         ctx.count("cfg:P-not-day")
     tags0 = dict(call="setup_mcmc", s=d["s"]["kind"], custom_units=bool(custom))
@@ -634,6 +644,8 @@ def post(ctx):
     ctx.require("samples carrying another reference epoch than the data", c["tref-history:other epoch"], 3)
     ctx.require("samples stating the data's own reference epoch", c["tref-history:same epoch stated explicitly"], 3)
     ctx.require("eccentricity prior declared in per cent", c["eunit:FixedCompanionMass"] + c["eunit:Normal"], 2)
+    ctx.require("single RVData whose rv_err is in another unit than rv", c["cfg:rv_err in another unit than rv, single RVData"], 2)
+    ctx.require("several sources with rv_err in another unit than rv", c["cfg:rv_err in another unit than rv, several sources"], 1)
     ctx.require("configurations with custom units", c["cfg:custom-units"], 8)
     ctx.require("configurations with canonical units", c["cfg:canonical-units"], 3)
     ctx.require("P prior not in days", c["cfg:P-not-day"], 3)
